@@ -1,6 +1,9 @@
 import SdnsVerif.Spec.Zone
 import SdnsVerif.Model.Nsec
 import SdnsVerif.Lemmas.Nsec
+import SdnsVerif.Model.Nsec3
+import SdnsVerif.Lemmas.Nsec3
+import SdnsVerif.Model.Admission
 import SdnsVerif.Gen.C02
 /-!
 # C02 — denial of existence is accepted or synthesised only when proven
@@ -183,8 +186,9 @@ theorem delegation_nsec_sound (z : Zone) (hz : z.WF) (s : List Nsec) (hs : SetOK
 FULL STATEMENT (false of the model and of the code — see
 `nameError_nsec_full_fails` / `nameError_nsec_full_fails_ent` below):
 
-  theorem nameError_nsec_sound (z) (hz : z.WF) (hroot : z.apex ≠ []) (s) (hs : SetOK z s) (q) (hq : z.apex <+: q) (t)
-      (h : verifyNameErrorNSEC q (filterToZone z.apex s) = .ok ()) : z.answerClass q t = .nxdomain
+  nameError_nsec_sound :
+    ∀ (z) (hz : z.WF) (hroot : z.apex ≠ []) (s) (hs : SetOK z s) (q) (hq : z.apex <+: q) (t),
+      verifyNameErrorNSEC q (filterToZone z.apex s) = .ok () → z.answerClass q t = .nxdomain
 -/
 
 /-- **`VerifyNameErrorNSEC`, partial.**  Sound for every zone other than the
@@ -215,8 +219,9 @@ theorem nameError_nsec_sound_partial (z : Zone) (hz : z.WF) (hroot : z.apex ≠ 
 /-
 FULL STATEMENT (false, see `nodata_nsec_full_fails`):
 
-  theorem nodata_nsec_sound (z) (hz : z.WF) (s) (hs : SetOK z s) (q) (hq : z.apex <+: q) (t)
-      (h : verifyNODATANSEC q t (filterToZone z.apex s) = .ok ()) : z.answerClass q t = .nodata
+  nodata_nsec_sound :
+    ∀ (z) (hz : z.WF) (s) (hs : SetOK z s) (q) (hq : z.apex <+: q) (t),
+      verifyNODATANSEC q t (filterToZone z.apex s) = .ok () → z.answerClass q t = .nodata
 -/
 
 /-- **`VerifyNODATANSEC`, partial.**  Sound (exact-owner and wildcard NODATA,
@@ -299,5 +304,201 @@ theorem nodata_nsec_full_fails :
     wzone.answerClass [L "example", L "sub"] 1 = .delegated ∧
     evaluateAggressiveNSEC [L "example", L "sub"] 1 1 wzone.apex [wrec] = .error .badDelegation :=
   ⟨by decide, by decide, by decide, by decide⟩
+
+/-! ## NSEC3 (the hash is an arbitrary function) -/
+
+section nsec3
+open SdnsVerif.Model.Nsec3 SdnsVerif.Lemmas.Nsec3
+
+/-- **One chain only.**  If `prepareNSEC3Set` accepts a record set for a
+signer, then every usable record in it (algorithm 1, iterations within the
+cap, flags 0/1 — the others are ignored, RFC 5155 §8.1–8.2) has the ring's
+class and an owner exactly one label below that signer, and any two usable
+records carry the same (algorithm, iterations, salt): sets mixing NSEC3
+parameters, classes or zones are refused. -/
+theorem nsec3_prepare_single_chain (records : List Nsec3) (zone : Name) (ring : Ring)
+    (h : prepare records zone = .ok ring) :
+    (∀ r ∈ records, usable r = true → r.cls = ring.cls ∧ ownerInZone zone r = true) ∧
+    (∀ r₁ ∈ records, ∀ r₂ ∈ records, usable r₁ = true → usable r₂ = true → sameParams r₁ r₂ = true) :=
+  ⟨(prepare_ok h).2.1, (prepare_ok h).2.2.1⟩
+
+/-- **Unique match / unique cover / never both** for every hash value looked up in a ring. -/
+theorem nsec3_lookup_unique (entries : List Entry3) (v : Hash) (m c : Option Entry3)
+    (h : lookupHash entries v = .ok (m, c)) :
+    ¬(m.isSome = true ∧ c.isSome = true) ∧
+    (∀ e, c = some e → ∀ e' ∈ entries, e'.ownerHash ≠ v → covers3 e'.ownerHash e'.nextHash v = true → e' = e) :=
+  ⟨lookupHash_exclusive h, fun e he => ((lookupHash_ok h).2 e he).2.2.2.2⟩
+
+/-- **A ring built by sorting owner hashes excludes what its spans cover**, for
+any hash function: if the owner hashes are pairwise distinct (RFC 5155 §7.1
+makes the signer re-salt otherwise), a record of the sorted ring whose span
+strictly covers a value proves that value is not an owner hash — normal
+spans, the wrap-around of the last record and the one-record ring alike. -/
+theorem nsec3_ring_cover_excludes (hs : List Hash) (hd : hs.Pairwise (· ≠ ·)) (r : Nsec) (hr : r ∈ ringOf hs)
+    (o n : Hash) (ho : r.owner = [o]) (hn : r.next = [n]) (h : Hash) (hc : covers3 o n h = true) : h ∉ hs :=
+  ringOf_cover_excludes hs hd r hr o n ho hn h hc
+
+/-- **`VerifyNameErrorForZoneWithWork` is sound for an arbitrary hash, and an
+Opt-Out proof is never secure.**  `hashed`: the names the genuine ring was
+built from; `all`: every name of the zone's tree (owners, empty
+non-terminals, delegation points — opted out or not), closed under taking
+ancestors down to the signer.  If every usable record is genuine
+(`RecGenuine`: nothing hashed lies strictly inside its span; nothing of the
+tree at all unless it carries Opt-Out) and the validator answers `ok secure`:
+
+* the ring has the question's class, the closest encloser lies in the signer zone,
+* `secure` is exactly "the next-closer cover carries no Opt-Out flag",
+* `secure = true` ⇒ the question name is not in the zone's tree.
+
+No injectivity of the hash is assumed (a colliding question name only ever
+produces a *match*, on which nothing is denied). -/
+theorem nsec3_nameerror_sound (all hashed : List Name) (H : Name → Hash) (records : List Nsec3)
+    (hgen : ∀ r ∈ records, usable r = true → RecGenuine all hashed H r)
+    (signer q : Name) (qclass : Nat)
+    (hclosed : ∀ n ∈ all, ∀ j, signer.length ≤ j → j ≤ n.length → n.take j ∈ all)
+    (secure : Bool)
+    (h : verifyNameError (fun n => some (H n)) records signer q qclass = .ok secure) :
+    ∃ ring k nc, prepare records signer = .ok ring ∧ ring.cls = qclass ∧
+      signer.length ≤ k ∧ k < q.length ∧
+      findCoverer (fun n => some (H n)) ring (q.take (k + 1)) = .ok nc ∧
+      secure = (nc.flags % 2 == 0) ∧ (secure = true → q ∉ all) :=
+  verifyNameError_sound hgen hclosed h
+
+end nsec3
+
+/-! ## admission of shared denial state, AD, and what an incomplete proof leads to -/
+
+section admission
+open SdnsVerif.Model.Admission
+
+/-- **Admission guard** (`cache.ResponseWriter.WriteMsg`): a denial proof or a
+subtree cut is recorded only for the exact response the resolver marked
+(local provenance), with a typed NSEC/NSEC3 proof the RFC 8198 evaluator
+reproduced (`Aggressive`), request CD = 0, response CD = 0, no client ECS and
+no ECS cache scope. -/
+theorem admission_guard (i : WriteIn) (h : proofRecorded i = true ∨ cutRecorded i = true) :
+    i.marked = true ∧ i.copied = false ∧ i.agg = true ∧ i.kind ≠ 0 ∧
+    i.reqCD = false ∧ i.respCD = false ∧ i.ecs = false ∧ i.hasScope = false := by
+  have hadm : admitted i = true := by
+    rcases h with h | h
+    · unfold proofRecorded at h; simp only [Bool.and_eq_true] at h; exact h.1.1
+    · unfold cutRecorded at h; simp only [Bool.and_eq_true] at h; exact h.1.1
+  unfold admitted provenance at hadm
+  cases hm : i.marked <;> cases hc : i.copied <;> cases hk : decide (i.kind = 0) <;>
+    simp_all
+
+/-- a subtree cut (RFC 8020) is recorded only for NXDOMAIN and never over an Opt-Out span. -/
+theorem cut_needs_nxdomain_no_optout (i : WriteIn) (h : cutRecorded i = true) :
+    i.nx = true ∧ ¬(i.fam = 2 ∧ i.optout = true) := by
+  unfold cutRecorded at h
+  simp only [Bool.and_eq_true, Bool.not_eq_true', Bool.and_eq_false_iff, beq_eq_false_iff_ne] at h
+  refine ⟨h.1.2, ?_⟩
+  rintro ⟨h1, h2⟩
+  rcases h.2 with h3 | h3
+  · exact h3 h1
+  · rw [h2] at h3; cases h3
+
+/-- **Opt-Out never earns AD nor shared state** (`Resolver.authority` +
+WriteMsg): when the exact validator reports `secure = false` (its proof rests
+on an Opt-Out span) the response gets no AD, no provenance mark and is not
+aggressive-eligible — so, whatever else holds, nothing is admitted to the
+shared denial caches; and an `ErrNSECOptOut` from the RFC 8198 evaluator
+withholds `Aggressive` (hence admission) even for a secure proof. -/
+theorem optout_never_shared (fam : Family) (agg : Except Err Rcode) (respNX reqCD : Bool) :
+    let o := authority fam (.ok false) agg respNX reqCD
+    o.ad = false ∧ o.marked = false ∧ o.aggressive = false ∧
+    (∀ i : WriteIn, i.marked = o.marked → proofRecorded i = false ∧ cutRecorded i = false) ∧
+    (∀ exact, (authority fam exact (.error .optOut) respNX reqCD).aggressive = false) := by
+  refine ⟨?_, ?_, ?_, ?_, ?_⟩
+  · unfold authority; cases reqCD <;> simp
+  · unfold authority; cases reqCD <;> simp
+  · unfold authority; cases reqCD <;> simp
+  · intro i hi
+    have hm : i.marked = false := by rw [hi]; unfold authority; cases reqCD <;> simp
+    unfold proofRecorded cutRecorded admitted provenance
+    simp [hm]
+  · intro exact
+    unfold authority
+    cases reqCD <;> cases exact <;> simp
+
+/-- `Aggressive` (the only door to shared state) needs the exact validator to
+accept with `secure = true` AND the RFC 8198 evaluator to reach the response's
+own RCODE on the same records. -/
+theorem aggressive_needs_both (fam : Family) (exact : Except Err Bool) (agg : Except Err Rcode)
+    (respNX reqCD : Bool) (h : (authority fam exact agg respNX reqCD).aggressive = true) :
+    exact = .ok true ∧ reqCD = false ∧ ∃ rc, agg = .ok rc ∧ ((rc == Rcode.nxdomain) = respNX) := by
+  unfold authority at h
+  cases reqCD
+  · cases exact with
+    | error e => simp at h
+    | ok secure =>
+      cases secure
+      · simp at h
+      · cases agg with
+        | error e => cases fam <;> simp at h
+        | ok rc => cases fam <;> simp at h <;> exact ⟨rfl, rfl, rc, rfl, by simpa using h⟩
+  · simp at h
+
+/-- **An incomplete proof is never a denial.**  Resolver side: any error of
+the exact validator makes `authority` fail (SERVFAIL), with no AD and no
+mark; any error of the RFC 8198 evaluator only withholds `Aggressive`.  Cache
+side: any evaluator error is a miss (ordinary resolution), and a synthesised
+NXDOMAIN / NODATA arises only from the evaluator's own `ok` verdict. -/
+theorem incomplete_is_not_denial :
+    (∀ fam e agg nx, let o := authority fam (.error e) agg nx false
+        o.servfail = true ∧ o.ad = false ∧ o.marked = false ∧ o.aggressive = false) ∧
+    (∀ fam exact e nx cd, (authority fam exact (.error e) nx cd).aggressive = false) ∧
+    (∀ e, synth (.error e) = .miss) ∧
+    (∀ r, synth r = .nxdomain → ∃ p, r = .ok (.nxdomain, p)) ∧
+    (∀ r, synth r = .nodata → ∃ p, r = .ok (.nodata, p)) := by
+  refine ⟨?_, ?_, ?_, ?_, ?_⟩
+  · intro fam e agg nx; unfold authority; simp
+  · intro fam exact e nx cd; unfold authority; cases cd <;> cases exact <;> simp
+  · intro e; rfl
+  · intro r h
+    unfold synth at h
+    split at h
+    · rename_i p; exact ⟨p, rfl⟩
+    · cases h
+    · cases h
+  · intro r h
+    unfold synth at h
+    split at h
+    · cases h
+    · rename_i p; exact ⟨p, rfl⟩
+    · cases h
+
+end admission
+
+/-! ## facts regenerated from the tree -/
+
+/-- the meta / pseudo types for which the model refuses NODATA synthesis are
+all still refused by the code's `aggressiveNODATAType` (evaluated over all
+65536 types); the code may refuse more, never fewer. -/
+theorem nodata_type_exceptions_pinned : ∀ t ∈ nodataExceptions, t ∈ SdnsVerif.Gen.C02.nodata_exceptions := by
+  decide
+
+/-- the NSEC3 usability filter of the tree is the model's: SHA-1 only, flags
+0/1 only, iteration cap exactly the model's constant (and what `nsec3Safe`
+accepts, searched over the whole 16-bit field, is that cap). -/
+theorem nsec3_usability_pinned :
+    SdnsVerif.Gen.C02.max_nsec3_iterations = SdnsVerif.Model.Nsec3.maxIterations ∧
+    SdnsVerif.Gen.C02.max_safe_iterations = SdnsVerif.Gen.C02.max_nsec3_iterations ∧
+    SdnsVerif.Gen.C02.nsec3_safe_algorithms = [1] ∧ SdnsVerif.Gen.C02.nsec3_safe_flags = [0, 1] := by
+  decide
+
+/-- shape of `Resolver.authority` in the current tree (go/ast walk): the
+provenance mark sits under `denialSecure ∧ ¬CD ∧ isNegative` (inside
+`r.dnssec ∧ verified`), AD is assigned from `denialSecure` and nowhere else,
+`Aggressive` comes from the evaluator reproducing the response's RCODE, the
+NSEC3 evaluator is consulted only under `denialSecure`, and every exact
+validator error returns the error. -/
+theorem authority_shape_pinned :
+    SdnsVerif.Gen.C02.shape_mark_guarded_by_secure_cd_negative = true ∧
+    SdnsVerif.Gen.C02.shape_ad_is_denial_secure = true ∧
+    SdnsVerif.Gen.C02.shape_aggressive_flag_from_evaluator = true ∧
+    SdnsVerif.Gen.C02.shape_nsec3_aggressive_needs_secure = true ∧
+    SdnsVerif.Gen.C02.shape_validator_error_returns_error = true := by
+  decide
 
 end SdnsVerif.Props.C02
